@@ -3,10 +3,27 @@ from ..gen import cells as G
 from ..gen import scripts as S
 
 SPEC = dict(
+    manifest=dict(
+        category='proof',
+        text='Lean 4 theorems over a hand-written model of Builder/Slice (every store_*/load_*/preload_* incl. var-ints, coins, addresses with '
+             'anycast, optional refs/dicts, strings), proved for ALL widths, values, byte-length classes, address forms, continuations and sequence '
+             'lengths: a typed store that returns appends exactly the TL-B encoding (Spec/TlbPrim.lean, written from the TL-B rules) and its refs '
+             '(c06_bits_exact); the matching load on that encoding followed by any continuation returns the value and leaves exactly the continuation '
+             '(c06_store_load, c06_decode_encode); any list of values stored into an empty builder loads back equal with nothing left '
+             '(c06_sequence, induction); whenever load_X returns, preload_X returns the same and leaves the slice unchanged (c06_preload_eq_load, '
+             'every kind incl. preload_address); var-int length prefixes are minimal for both signs (c06_varint_minimal); snake chains: see c06_snake*. '
+             'The model is tied to the working tree by differential testing: seeded scripts run on the library and on the compiled model, and '
+             'each script is also checked on the library alone against an independent Python TL-B encoder, peek/load round trip and leftovers.',
+        level_note='Proved for all inputs: the statements above, about Model/Builder.lean. Only sampled: that builder.py/slice.py/tvm_bitarray.py/'
+                   'address.py behave as the model (correspondence on generated scripts; bitarray int2ba/ba2int/slicing and str.encode/decode are '
+                   'assumed as modelled). Not modelled: load_dict parses the referenced HashMap (C09), str<->UTF-8, Python recursion limit for very '
+                   'long snake chains. Trusted: Spec/TlbPrim.lean + Spec/TlbVal.lean say what TL-B says; Lean kernel; harness/gen/scripts.py.',
+        technique='Lean 4 proof (hand model, OpSpec calculus + closed forms of the slice reads) + differential correspondence with the library'),
     design_ref='DESIGN.md §6 C06',
     rule='seeded sequences of typed values that fit a cell (ints of widths 1..257 at 0/1/max/top-bit/min/-1, var-ints of every byte-length '
          'class incl. top-bit-set values, coins, bits, bytes, refs, maybe-refs, addr_none/extern(len 0..511)/std(+anycast)), snake byte strings '
-         'of boundary lengths; each stored, compared bit-for-bit with an independent TL-B encoder, peeked and loaded back, and run through '
+         'of boundary lengths, optional dicts (HashmapE bit + ref), strings (store_string/load_string/preload_string incl. multi-byte UTF-8), '
+         'store_snake_string with and without prefix; each stored, compared bit-for-bit with an independent TL-B encoder, peeked and loaded back, and run through '
          'the Lean model; distinct = distinct script; non-trivial = script has >= 1 value',
     trusted_base=['Model/Builder.lean mirrors builder.py/slice.py/TvmBitarray/address.to_cell by hand (BOp/SOp state functions)',
                   'bitarray int2ba/ba2int/slicing semantics as modelled (probed)', 'harness/gen/scripts.py: op tokens, executors, TL-B encoder'],
@@ -24,12 +41,12 @@ def sline(dag, node, ops):
     return f"sscript {G.dag_line(dag)[8:]} {node} {';'.join(ops) or '-'}"
 
 
-def gen_fitting(rng, cells):
+def gen_fitting(rng, cells, dict_idx=None):
     ncells = len(cells)
     toks, bits, refs = [], 0, 0
     cells_cost = {}
     for _ in range(rng.randrange(1, 12)):
-        t = S.rand_typed_tok(rng, ncells)
+        t = S.rand_typed_tok(rng, ncells, dict_idx)
         e = S.enc_tok(t, cells)
         cb, cr = len(e[0]), len(e[1])
         if bits + cb > 1023 or refs + cr > 4:
@@ -95,11 +112,14 @@ def snake(ctx, n, prefill):
     ctx.case(('snake', n, prefill), sample={'snake_len': n, 'prefill': prefill})
     ctx.count('snake')
     flags, bits, refs, fin, b = S.exec_builder([], ops)
+    cells_needed = 1 + max(0, -(-(n - (1023 - prefill) // 8) // 127)) if n else 1
     if '0' in flags or fin == 'err':
         # depth > 1023 is the only legitimate reason
-        cells_needed = 1 + max(0, -(-(n - (1023 - prefill) // 8) // 127)) if n else 1
         if cells_needed <= 1024:
             ctx.fail('snake-store', f'store_snake_bytes of {n} bytes refused', inp, flags + fin, 'stored')
+        return
+    if cells_needed > 1024:
+        ctx.fail('snake-depth', f'store_snake_bytes of {n} bytes produced a chain of {cells_needed} cells (depth > 1023)', inp, 'stored', 'exception')
         return
     s = b.end_cell().begin_parse()
     if prefill:
@@ -112,6 +132,38 @@ def snake(ctx, n, prefill):
         ctx.fail('snake-load', f'load_snake_bytes differs from stored data (len {n})', inp, repr(back)[:100], data.hex()[:100])
     if n <= 40000:
         ctx.expect_model(bline([], ops), f'ok {flags} {bits} {refs} {fin}', f'snake len {n} prefill {prefill}')
+    if n <= 2000 and prefill % 8 == 0:
+        dag = S.cell_dag(b.end_cell())
+        lops = ([f'sk:{prefill}'] if prefill else []) + ['lsn']
+        res, rb, rr = S.exec_slice(b.end_cell(), lops)
+        ctx.expect_model(sline(dag, len(dag) - 1, lops), f'ok {res} {rb} {rr}', f'snake load len {n} prefill {prefill}')
+
+
+def snake_string(ctx, n, pre, prefill):
+    rng = ctx.rng
+    text = ''.join(rng.choice(S.STRING_ALPHABET) for _ in range(n))
+    data = text.encode()
+    ops = ([f'u:0:{prefill}'] if prefill else []) + [f'sns:{data.hex() or "-"}:{int(pre)}']
+    inp = {'ops': [o[:80] for o in ops], 'chars': n, 'prefix': pre, 'prefill': prefill}
+    ctx.case(('snake-string', n, pre, prefill, text[:20]), sample={'chars': n, 'prefix': pre, 'prefill': prefill})
+    ctx.count('snake-string')
+    flags, bits, refs, fin, b = S.exec_builder([], ops)
+    if '0' in flags or fin == 'err':
+        ctx.fail('snake-string-store', f'store_snake_string of {len(data)} bytes refused', inp, flags + fin, 'stored')
+        return
+    cell = b.end_cell()
+    lops = ([f'sk:{prefill}'] if prefill else []) + ['lsn']
+    res, rb, rr = S.exec_slice(cell, lops)
+    want = ((b'\x00' if pre else b'') + data).hex() or '-'
+    if res.split(';')[-1] != want:
+        ctx.fail('snake-string', 'store_snake_string / load_snake_bytes mismatch', inp, res[-80:], want[-80:])
+    if not pre:
+        r2 = S.exec_slice(cell, ([f'sk:{prefill}'] if prefill else []) + ['lss'])[0]
+        if r2.split(';')[-1] != (data.hex() or '-'):
+            ctx.fail('snake-string-load', 'load_snake_string differs from the stored string', inp, r2[-80:], data.hex()[-80:])
+    ctx.expect_model(bline([], ops), f'ok {flags} {bits} {refs} {fin}', f'snake string {n} {pre} {prefill}')
+    dag = S.cell_dag(cell)
+    ctx.expect_model(sline(dag, len(dag) - 1, lops), f'ok {res} {rb} {rr}', f'snake string load {n} {pre} {prefill}')
 
 
 def api_extras(ctx):
@@ -129,6 +181,19 @@ def api_extras(ctx):
                 ctx.fail('string-bits', 'store_string bits are not the UTF-8 bytes', {'s': s}, c.bits.tobytes().hex(), s.encode().hex())
         except Exception as e:
             ctx.fail('string', f'store_string raised {e!r}', {'s': s}, repr(e), 'ok')
+    # load_string(0) / preload_string(0) = all WHOLE bytes that remain (a trailing partial byte stays)
+    for extra in range(0, 8):
+        for text in ('', 'q', 'héllo'):
+            bits = G.bytes_to_bits(text.encode()) + '1' * extra
+            dag = [(G.ORD, bits, ())]
+            cell = G.lib_build(dag)[0]
+            ctx.case(('string-rest', text, extra))
+            ops = ['ps:0', 'ls:0']
+            res, rb, rr = S.exec_slice(cell, ops)
+            want = text.encode().hex() or '-'
+            if res != f'{want};{want}' or rb != ('1' * extra or '-'):
+                ctx.fail('string-rest', f'preload_string()/load_string() on {len(text.encode())} bytes + {extra} bits', {'bits': bits}, [res, rb], [want, '1' * extra])
+            ctx.expect_model(sline(dag, 0, ops), f'ok {res} {rb} {rr}', 'string-rest')
     for n in (0, 1, 126, 127, 128, 300, 1000):
         s = ''.join(rng.choice('abcé日') for _ in range(n))
         for pre in (False, True):
@@ -156,8 +221,24 @@ def api_extras(ctx):
 def run(ctx):
     rng = ctx.rng
     cells = G.lib_build(LEAF_DAG)
-    for t in range(ctx.n(1500, 15000)):
-        check_roundtrip(ctx, LEAF_DAG, cells, gen_fitting(rng, cells), f'seq{t}')
+    # context with a real dictionary cell (HashMap(8), 3 entries) for store_dict / load_dict / preload_dict
+    ddag = LEAF_DAG + S.shift_dag(S.dict_dag(), len(LEAF_DAG))
+    dcells = G.lib_build(ddag)
+    didx = len(ddag) - 1
+    for t in range(ctx.n(4000, 20000)):
+        check_roundtrip(ctx, ddag, dcells, gen_fitting(rng, dcells, didx), f'seq{t}')
+    for toks in ([f'd:{didx}'], ['d:-'], [f'd:{didx}', 'd:-', 'u:3:2', f'd:{didx}'], [f'mr:{didx}', f'd:{didx}', f'r:{didx}', 'd:-'],
+                 ['b:' + '1' * 1022, 'd:-'], ['b:' + '1' * 1022, f'd:{didx}'], ['r:0', 'r:1', 'r:2', f'd:{didx}']):
+        check_roundtrip(ctx, ddag, dcells, toks, 'dict')
+    for text in ['a', 'héllo wörld', '日本語' * 10, 'x' * 127, 'é' * 63, '𝄞' * 31, 'ab\x00cd']:
+        h = text.encode().hex()
+        check_roundtrip(ctx, ddag, dcells, [f's:{h}'], 'string')
+        check_roundtrip(ctx, ddag, dcells, ['u:5:3', f's:{h}', 'bit:1'] if len(text.encode()) < 127 else ['u:5:3', f's:{h}'], 'string')
+    check_roundtrip(ctx, ddag, dcells, ['u:5:8', 's:-'], 'string-empty-last')
+    for n in (0, 1, 40, 126, 127, 128, 300, 1000):
+        for pre in (False, True):
+            for prefill in (0, 8, 1016):
+                snake_string(ctx, n, pre, prefill)
     # every var-int byte-length class, both signs, k in 3,4,5 (VarUInteger 7/16/32)
     for k in (3, 4, 5):
         for nb in range(0, (1 << k)):
@@ -186,6 +267,11 @@ def run(ctx):
     for n in [0, 1, 2, 126, 127, 128, 129, 253, 254, 255, 256, 381, 382, 1000, 16000] + ([130000, 129920, 130048] if ctx.thorough else []):
         for prefill in (0, 8, 3, 1016, 1023):
             snake(ctx, n, prefill)
+    # the longest chain (depth 1023 = 1024 cells) and one byte more (must be refused by end_cell's depth check)
+    snake(ctx, 127 * 1024, 0)
+    snake(ctx, 127 * 1024 + 1, 0)
+    snake(ctx, 127 * 1023, 1016)
+    snake(ctx, 127 * 1023 + 1, 1016)
     api_extras(ctx)
 
 
